@@ -285,7 +285,10 @@ SomeOpts == {Opts("none", TRUE, FALSE, FALSE), Opts("sql", TRUE, FALSE, TRUE), O
 OnlyIterNeg == [x |-> "fn", f |-> "neg", args |-> <<A>>, only |-> "iter"]
 OnlySqlNeg == [x |-> "fn", f |-> "neg", args |-> <<A>>, only |-> "sql"]
 RestrictedOps == {Calc("k", OnlyIterNeg), Calc("k", OnlySqlNeg), Sort(<<Term(OnlyIterNeg, TRUE)>>),
-                  SelRaw([p |-> "cmp", f |-> "lt", l |-> A, r |-> Lit(1), only |-> "iter"])}
+                  SelRaw([p |-> "cmp", f |-> "lt", l |-> A, r |-> Lit(1), only |-> "iter"]),
+                  \* boolean functions declared for one kind of engine whose ARGUMENT only the other kind supports
+                  SelRaw([p |-> "cmp", f |-> "lt", l |-> OnlySqlNeg, r |-> Lit(1), only |-> "iter"]),
+                  SelRaw([p |-> "cmp", f |-> "lt", l |-> OnlyIterNeg, r |-> Lit(1), only |-> "sql"])}
 Rejects(r) ==
     IF final THEN {}
     ELSE {[call |-> c, err |-> CallResult(c, r).err] :
